@@ -75,10 +75,45 @@ pub struct View {
     pub headers: Vec<(String, Vec<String>)>,
     pub header_count: usize,
     pub cookies: Vec<(String, String)>,
+    /// `get_cookie(name)` for every name of `cookie_probe_names`
+    pub cookie_lookups: Vec<(String, Option<String>)>,
     pub origin: IpAddr,
     pub proxies: Vec<IpAddr>,
     pub port: u16,
     pub body: Option<Vec<u8>>,
+}
+
+/// Names to look up with `get_cookie`: every cookie name sent, a proper suffix of each (present as
+/// a cookie or not), every `k` of a `k=` occurring inside a value, and a name that is absent.
+pub fn cookie_probe_names(cookies: &[(String, String)]) -> Vec<String> {
+    let mut v: Vec<String> = Vec::new();
+    let mut add = |s: String| {
+        if !s.is_empty() && !v.contains(&s) {
+            v.push(s);
+        }
+    };
+    for (k, val) in cookies {
+        add(k.clone());
+        if k.chars().count() > 2 {
+            add(k.chars().skip(k.chars().count() - 2).collect());
+        }
+        if let Some((_, tail)) = k.rsplit_once('_') {
+            add(tail.to_string());
+        }
+        for part in val.split(['?', '&']) {
+            if let Some((kk, _)) = part.split_once('=') {
+                add(kk.to_string());
+            }
+        }
+    }
+    add("zz-absent".to_string());
+    v
+}
+
+pub fn view_of_with_cookies(r: &Request, names: &[String], probe: &[String]) -> View {
+    let mut v = view_of(r, names);
+    v.cookie_lookups = probe.iter().map(|n| (n.clone(), r.get_cookie(n).map(|c| c.value))).collect();
+    v
 }
 
 pub fn view_of(r: &Request, names: &[String]) -> View {
@@ -90,6 +125,7 @@ pub fn view_of(r: &Request, names: &[String]) -> View {
         headers: names.iter().map(|n| (n.clone(), r.headers.get_all(n.as_str()).iter().map(|s| s.to_string()).collect())).collect(),
         header_count: r.headers.len(),
         cookies: r.get_cookies().into_iter().map(|c| (c.name, c.value)).collect(),
+        cookie_lookups: vec![],
         origin: r.address.origin_addr,
         proxies: r.address.proxies.clone(),
         port: r.address.port,
@@ -125,6 +161,7 @@ pub fn expected_view(m: &Model) -> (View, Vec<String>) {
             headers,
             header_count: wh.len(),
             cookies: m.cookies.clone(),
+            cookie_lookups: cookie_probe_names(&m.cookies).into_iter().map(|n| { let v = m.cookies.iter().find(|(k, _)| *k == n).map(|(_, v)| v.clone()); (n, v) }).collect(),
             origin,
             proxies,
             port: peer.port(),
@@ -161,6 +198,9 @@ fn diff(a: &View, b: &View) -> String {
     }
     if a.cookies != b.cookies {
         return "cookies".into();
+    }
+    if !a.cookie_lookups.is_empty() && !b.cookie_lookups.is_empty() && a.cookie_lookups != b.cookie_lookups {
+        return "cookie-lookup".into();
     }
     if a.origin != b.origin {
         return "origin-address".into();
@@ -220,7 +260,28 @@ pub fn gen_model(rng: &mut Rng, tier: Tier) -> Model {
         headers.push((name, value(rng, vlen)));
     }
     let ncook = if rng.chance(1, 3) { rng.range(1, 5) as usize } else { 0 };
-    let cookies = (0..ncook).map(|_| (token(rng, 5), token(rng, 8))).collect();
+    let mut cookies: Vec<(String, String)> = (0..ncook).map(|_| (token(rng, 5), token(rng, 8))).collect();
+    // names that end in another cookie's name, and values that contain another cookie's `name=`
+    if ncook > 0 {
+        let mut r2 = Rng::new(humsim::rng::mix(&[rng.next_u64(), 0xC02_0002]));
+        match r2.below(4) {
+            0 => {
+                let base = token(&mut r2, 2);
+                cookies.insert(0, (format!("{}_{}", token(&mut r2, 4), base), token(&mut r2, 6)));
+                if r2.chance(1, 2) {
+                    cookies.push((base, token(&mut r2, 4)));
+                }
+            }
+            1 => {
+                let k = token(&mut r2, 1);
+                cookies.insert(0, ("next".to_string(), format!("/login?{}=guest&r=1", k)));
+                if r2.chance(2, 3) {
+                    cookies.push((k, "admin".to_string()));
+                }
+            }
+            _ => {}
+        }
+    }
     let nx = if rng.chance(1, 3) { rng.range(1, 4) as usize } else { 0 };
     let xff = (0..nx).map(|_| random_ip(rng)).collect();
     let has_body = rng.chance(1, 2);
@@ -290,7 +351,7 @@ impl Prop for C02 {
         }
     }
     fn rule(&self) -> &'static str {
-        "One run = one generated well-formed request model (5 methods, origin-form path incl. percent-escapes and UTF-8, optional query, 0..60 headers with repeated names in random case and > 20 headers, values with UTF-8 / colons / inner spaces, lines > 8 KiB, a Cookie list, an X-Forwarded-For list with ',' or ', ' separators over IPv4/IPv6, Content-Length body 0..64 KiB of arbitrary bytes) parsed under read plans: whole, one byte per read, EVERY two-chunk split point (messages <= 2 KiB; 40 random split points above), 3 random chunkings, EINTR before reads; then serialised and parsed again. Distinct non-trivial case = distinct (model, plan kind) with at least one header or a body; evaluations = parser calls."
+        "One run = one generated well-formed request model (5 methods, origin-form path incl. percent-escapes and UTF-8, optional query, 0..60 headers with repeated names in random case and > 20 headers, values with UTF-8 / colons / inner spaces, lines > 8 KiB, a Cookie list (also names ending in another cookie's name and values containing another cookie's `name=`; every name, suffix and an absent name is looked up with get_cookie), an X-Forwarded-For list with ',' or ', ' separators over IPv4/IPv6, Content-Length body 0..64 KiB of arbitrary bytes) parsed under read plans: whole, one byte per read, EVERY two-chunk split point (messages <= 2 KiB; 40 random split points above), 3 random chunkings, EINTR before reads; then serialised and parsed again. Distinct non-trivial case = distinct (model, plan kind) with at least one header or a body; evaluations = parser calls."
     }
     fn assumptions(&self) -> Vec<String> {
         vec![
@@ -383,7 +444,7 @@ impl Prop for C02 {
                     break;
                 }
                 Ok(Ok(req)) => {
-                    let got = view_of(&req, &names);
+                    let got = view_of_with_cookies(&req, &names, &cookie_probe_names(&m.cookies));
                     let d = diff(&got, &want);
                     if !d.is_empty() {
                         let rule = if pname == "whole" { "C02/R1" } else { "C02/R2" };
